@@ -4,9 +4,9 @@ From PlzV Require Import Base.Harness Base.StrFacts Model.C27 Proof.C27 Gen.Cove
 From Coq Require Import Lia Permutation List.
 
 (* ---- ties to the source: proved by computation on the regenerated definitions ---- *)
-(* NewBuildState creates the Files map up front (and not the Tests map) *)
-Lemma newstate_creates_files : newstate_init_files = true.
-Proof. reflexivity. Qed.
+(* NewBuildState creates both maps of Coverage up front, i.e. before the state can be copied *)
+Lemma newstate_creates_both_maps : newstate_init_files = true /\ newstate_init_tests = true.
+Proof. split; reflexivity. Qed.
 
 (* every field of TestCoverage is a map, i.e. a reference: a struct copy shares all of it and carries no lock *)
 Lemma coverage_is_two_maps : coverage_fields = [("Tests", "map"); ("Files", "map")]%string /\ coverage_by_value = true.
@@ -20,7 +20,7 @@ Proof. reflexivity. Qed.
 Lemma flake_combine_is_aggregate : flake_combine = CombAggregate.
 Proof. reflexivity. Qed.
 
-(* ---- lists ---- *)
+(* ---- lists: upd i x l replaces the i-th element ---- *)
 Lemma upd_length {A} i (x : A) l : length (upd i x l) = length l.
 Proof. revert i; induction l as [|y l IH]; intros [|i]; cbn [upd length]; auto. Qed.
 
@@ -32,10 +32,23 @@ Proof.
   intros Hl Hx; revert i; induction Hl as [|y l Hy Hl IH]; intros [|i]; cbn [upd]; constructor; auto.
 Qed.
 
+Lemma map_upd {A B} (g : A -> B) i x l : map g (upd i x l) = upd i (g x) (map g l).
+Proof. revert i; induction l as [|y l IH]; intros [|i]; cbn [upd map]; rewrite ?IH; reflexivity. Qed.
+
+Lemma upd_same {A} i (x : A) l : nth_error l i = Some x -> upd i x l = l.
+Proof. revert i; induction l as [|y l IH]; intros [|i] H; cbn [upd nth_error] in *; try discriminate; [congruence|]. rewrite IH; auto. Qed.
+
+Lemma nth_error_upd_other {A} i j (x : A) l : i <> j -> nth_error (upd i x l) j = nth_error l j.
+Proof. revert i j; induction l as [|y l IH]; intros [|i] [|j] H; cbn [upd nth_error]; auto; congruence. Qed.
+
 Lemma nth_error_lt {A} (l : list A) i : i < length l -> exists x, nth_error l i = Some x.
 Proof. intros H. destruct (nth_error l i) eqn:E; [eauto|]. apply nth_error_None in E. lia. Qed.
 
-(* ---- 1. state copies: all copies feed one Files map ---- *)
+Lemma fold_agg_obj_files cs : forall acc,
+  snd (fold_left agg_obj cs acc) = fold_left aggregate (map snd cs) (snd acc).
+Proof. induction cs as [|c cs IH]; intros acc; cbn [fold_left map]; [reflexivity|]. rewrite IH. reflexivity. Qed.
+
+(* ---- 1. state copies: all copies feed one Files map (and one Tests map) ---- *)
 (* the invariant: one Files map on the heap, and every state refers to it *)
 Definition files_shared (w : world) (F : files) : Prop :=
   w_files w = [F] /\ Forall (fun c => c_files c = Some 0) (w_states w).
@@ -157,23 +170,230 @@ Proof.
   rewrite H1 by assumption. apply aggregate_best.
 Qed.
 
-(* The per-test breakdown is NOT shared in the same way: NewBuildState does not create the Tests map, so a
-   state copied before its source's first Aggregate makes its own.  The witness (reproduced on the real code
-   by the harness, class per-test-breakdown-private-to-state-copy): a subrepo state made before any result;
-   the subrepo's test never shows in the root's per-test map. *)
-Lemma tests_private_to_early_copy :
+(* The per-test breakdown is shared in the same way, because NewBuildState creates the Tests map too. *)
+Definition tests_shared (w : world) (T : tests) : Prop :=
+  w_tests w = [T] /\ Forall (fun c => c_tests c = Some 0) (w_states w).
+
+Lemma world0_tests_shared : tests_shared world0 [].
+Proof. split; [reflexivity|]. repeat constructor. Qed.
+
+Lemma log_all_shared w T F st cv :
+  tests_shared w T -> files_shared w F -> st < length (w_states w) ->
+  exists w', exec st cv aggregate_prog w = Some w' /\ tests_shared w' (tset_all (fst cv) T)
+             /\ files_shared w' (aggregate F (snd cv)) /\ length (w_states w') = length (w_states w).
+Proof.
+  intros [HT HallT] [HF HallF] Hst. destruct (nth_error_lt _ _ Hst) as [c Hc].
+  assert (Hcc : c = mkCover (Some 0) (Some 0)).
+  { rewrite Forall_forall in HallT, HallF. pose proof (HallT c (nth_error_In _ _ Hc)) as H1.
+    pose proof (HallF c (nth_error_In _ _ Hc)) as H2. destruct c; cbn in *; congruence. }
+  subst c. destruct w as [sts th fh]; cbn [w_states w_tests w_files] in *. subst th fh.
+  change aggregate_prog with [LazyMake "Tests"; LazyMake "Files"; AssignTests; MergeFiles]%string.
+  set (w0 := mkWorld sts [T] [F]).
+  assert (H0 : nth_error (w_states w0) st = Some (mkCover (Some 0) (Some 0))) by exact Hc.
+  assert (E1 : exec_stmt st cv (LazyMake "Tests") w0 = Some w0) by (unfold exec_stmt; rewrite H0; reflexivity).
+  assert (E2 : exec_stmt st cv (LazyMake "Files") w0 = Some w0) by (unfold exec_stmt; rewrite H0; reflexivity).
+  set (w1 := mkWorld sts [tset_all (fst cv) T] [F]).
+  assert (E3 : exec_stmt st cv AssignTests w0 = Some w1) by (unfold exec_stmt; rewrite H0; reflexivity).
+  assert (H1 : nth_error (w_states w1) st = Some (mkCover (Some 0) (Some 0))) by exact Hc.
+  assert (E4 : exec_stmt st cv MergeFiles w1 = Some (mkWorld sts [tset_all (fst cv) T] [aggregate F (snd cv)]))
+    by (unfold exec_stmt; rewrite H1; reflexivity).
+  cbn [exec]. rewrite E1, E2, E3, E4. eexists; split; [reflexivity|]. repeat split; auto.
+Qed.
+
+Lemma copy_tests_shared w T src c :
+  tests_shared w T -> nth_error (w_states w) src = Some c ->
+  tests_shared (mkWorld (w_states w ++ [c]) (w_tests w) (w_files w)) T.
+Proof.
+  intros [HT Hall] Hc. split; [exact HT|]. cbn [w_states]. apply Forall_app; split; auto.
+  constructor; auto. rewrite Forall_forall in Hall. exact (Hall c (nth_error_In _ _ Hc)).
+Qed.
+
+(* what one accumulator that nobody copies would hold after the runs of a history *)
+Definition merged (evs : list event) : covobj := fold_left agg_obj (logged evs) ([], []).
+
+Lemma merged_files evs : snd (merged evs) = aggregate_all (map snd (logged evs)).
+Proof. unfold merged, aggregate_all. rewrite fold_agg_obj_files. reflexivity. Qed.
+
+Lemma run_all_shared evs : forall w T F,
+  tests_shared w T -> files_shared w F -> valid (length (w_states w)) evs ->
+  exists w', run evs w = Some w' /\ tests_shared w' (fst (fold_left agg_obj (logged evs) (T, F)))
+             /\ length (w_states w) <= length (w_states w').
+Proof.
+  induction evs as [|[src|st cv] evs IH]; intros w T F HshT HshF Hv; cbn [run logged fold_left valid] in *.
+  - eauto.
+  - destruct Hv as [Hsrc Hv]. destruct (nth_error_lt _ _ Hsrc) as [c Hc].
+    destruct (copy_files_shared w F src HshF Hsrc) as (w1 & Hs & HshF1 & Hlen). rewrite Hs.
+    assert (HshT1 : tests_shared w1 T).
+    { cbn [step] in Hs. rewrite Hc in Hs. inversion Hs; subst w1. apply (copy_tests_shared w T src c); assumption. }
+    rewrite <- Hlen in Hv. destruct (IH w1 T F HshT1 HshF1 Hv) as (w' & Hr & Hsh' & Hle).
+    exists w'. split; [exact Hr|]. split; [exact Hsh'|lia].
+  - destruct Hv as [Hst Hv]. cbn [step].
+    destruct (log_all_shared w T F st cv HshT HshF Hst) as (w1 & -> & HshT1 & HshF1 & Hlen).
+    rewrite <- Hlen in Hv. destruct (IH w1 _ _ HshT1 HshF1 Hv) as (w' & Hr & Hsh' & Hle).
+    exists w'. split; [exact Hr|]. split; [exact Hsh'|lia].
+Qed.
+
+Lemma tests_shared_tests_of w T st : tests_shared w T -> st < length (w_states w) -> tests_of st w = T.
+Proof.
+  intros [HT Hall] Hst. unfold tests_of. destruct (nth_error_lt _ _ Hst) as [c Hc]. rewrite Hc.
+  rewrite Forall_forall in Hall. specialize (Hall c (nth_error_In _ _ Hc)). destruct c as [tr fr]; cbn in Hall; subst tr.
+  rewrite HT. reflexivity.
+Qed.
+
+(* every state also reports the per-test breakdown one uncopied accumulator would hold *)
+Theorem copies_share_tests evs w :
+  valid 1 evs -> run evs world0 = Some w ->
+  forall st, st < length (w_states w) -> tests_of st w = fst (merged evs).
+Proof.
+  intros Hv Hr st Hst.
+  destruct (run_all_shared evs world0 [] [] world0_tests_shared world0_files_shared Hv) as (w1 & Hr1 & Hsh & _).
+  rewrite Hr in Hr1; inversion Hr1; subst w1. apply (tests_shared_tests_of w _ st Hsh Hst).
+Qed.
+
+(* Regression (fixed in /repo by "fix: per-test coverage of subrepo targets was lost"): a constructor that creates
+   Files but not Tests.  A state copied before its source's first Aggregate then makes its own Tests map, and
+   the test of a subrepo target never shows in the root's per-test breakdown - while with both maps created
+   up front it does.  The harness keeps the scenario (class per-test-breakdown-private-to-state-copy). *)
+Lemma constructor_without_tests_map_splits_the_breakdown :
   let cv := ([(s "///sub//p:t", [(s "a.go", [3%N])])], [(s "a.go", [3%N])]) in
-  newstate_init_tests = false
-  /\ option_map (tests_of 0) (run [ECopy 0; ELog 1 cv] world0) = Some []
-  /\ option_map (tests_of 0) (run [ELog 1 cv] (new_state true true)) = None
-  /\ option_map (tests_of 0) (run [ECopy 0; ELog 1 cv] (new_state true true)) = Some (fst cv).
+  option_map (tests_of 0) (run [ECopy 0; ELog 1 cv] (new_state false true)) = Some []
+  /\ option_map (tests_of 0) (run [ECopy 0; ELog 1 cv] (new_state true true)) = Some (fst cv)
+  /\ option_map (tests_of 0) (run [ECopy 0; ELog 1 cv] world0) = Some (fst cv)
+  (* and without the Files map the line coverage splits the same way *)
+  /\ option_map (files_of 0) (run [ECopy 0; ELog 1 cv] (new_state true false)) = Some []
+  /\ option_map (files_of 0) (run [ECopy 0; ELog 1 cv] world0) = Some (snd cv).
+Proof. cbv zeta. repeat split; vm_compute; reflexivity. Qed.
+
+(* ---- 2. runs finishing at the same time ---- *)
+(* the contribution of a list of runs, with the i-th singled out *)
+Lemma contribs_split f i y l : nth_error l i = Some y ->
+  exists R, contribs f l = merge (contrib f y) R /\ forall x, contribs f (upd i x l) = merge (contrib f x) R.
+Proof.
+  revert i; induction l as [|z l IH]; intros [|i] H; cbn [nth_error] in H; try discriminate.
+  - inversion H; subst z. exists (contribs f l). split; [reflexivity|]. intros x. reflexivity.
+  - destruct (IH i H) as (R & HR & Hx). exists (merge (contrib f z) R). cbn [contribs upd]. split.
+    + rewrite HR, <- !merge_assoc, (merge_comm (contrib f z)). reflexivity.
+    + intros x. rewrite Hx, <- !merge_assoc, (merge_comm (contrib f z)). reflexivity.
+Qed.
+
+(* a thread that is neither under way nor holds a loaded value *)
+Definition idle (t : thread) : Prop := under_way t = false /\ t_reg t = None.
+
+(* a value a thread has loaded is still what the map holds: nobody wrote in between *)
+Definition holder_ok (m : files) (t : thread) : Prop :=
+  match t_reg t with
+  | Some v => t_started t = true /\ exists g c rest, t_todo t = (g, c) :: rest /\ v = lookup g m
+  | None => True
+  end.
+
+(* the invariant of a history under ONE lock: what the map holds plus what the threads still have to merge
+   is constant, and all threads but one (the holder of the lock) are idle *)
+Definition cinv (total : str -> list cov) (m : files) (ths : list thread) : Prop :=
+  (forall f, merge (lookup f m) (contribs f (map t_todo ths)) = total f)
+  /\ exists h, (forall j tj, nth_error ths j = Some tj -> j <> h -> idle tj)
+             /\ (forall th, nth_error ths h = Some th -> holder_ok m th).
+
+Lemma cstep_inv total i m ths m' ths' :
+  cinv total m ths -> cstep Shared i m ths = Some (m', ths') -> cinv total m' ths'.
+Proof.
+  intros [Htot (h & Hidle & Hhold)]. unfold cstep.
+  destruct (nth_error ths i) as [t|] eqn:Hi; [|discriminate].
+  destruct (negb (t_started t) && blocked Shared t ths) eqn:Hb; [discriminate|].
+  destruct (micro m t) as [[m1 t1]|] eqn:Hm; [|discriminate]. intros H; inversion H; subst m' ths'; clear H.
+  (* every thread but i is idle, and i's loaded value (if any) is current *)
+  assert (Hothers : (forall j tj, nth_error ths j = Some tj -> j <> i -> idle tj) /\ holder_ok m t).
+  { destruct (Nat.eq_dec i h) as [->|Hne]; [split; [exact Hidle|exact (Hhold t Hi)]|].
+    destruct (Hidle i t Hi Hne) as [Huw Hreg]. split; [|unfold holder_ok; rewrite Hreg; exact I].
+    assert (Hns : t_started t = false).
+    { unfold micro in Hm. unfold under_way in Huw. destruct (t_todo t); [discriminate|]. destruct (t_started t); [discriminate|reflexivity]. }
+    rewrite Hns in Hb. cbn [negb andb] in Hb.
+    intros j tj Hj Hji. destruct (Nat.eq_dec j h) as [->|Hjh]; [|exact (Hidle j tj Hj Hjh)].
+    assert (Huwj : under_way tj = false).
+    { unfold blocked in Hb. destruct (under_way tj) eqn:E; [|reflexivity].
+      assert (Hex : existsb (fun u => under_way u && excludes Shared t u) ths = true).
+      { apply existsb_exists. exists tj. split; [eapply nth_error_In; exact Hj|]. rewrite E. reflexivity. }
+      congruence. }
+    split; [exact Huwj|]. specialize (Hhold tj Hj). unfold holder_ok in Hhold. destruct (t_reg tj); [|reflexivity].
+    destruct Hhold as (Hs & g & c & rest & Htodo & _). unfold under_way in Huwj. rewrite Hs, Htodo in Huwj. discriminate. }
+  destruct Hothers as [Hothers Hcur].
+  assert (Hlen : i < length ths) by (apply nth_error_Some; congruence).
+  unfold micro in Hm. destruct (t_todo t) as [|[f c] rest] eqn:Htodo; [discriminate|].
+  destruct (t_reg t) as [v|] eqn:Hreg; inversion Hm; subst m1 t1; clear Hm.
+  - (* store *)
+    unfold holder_ok in Hcur. rewrite Hreg in Hcur. destruct Hcur as (_ & g & c' & rest' & Hg & Hv).
+    rewrite Htodo in Hg. inversion Hg; subst g c' rest' v. split.
+    + intros f0. rewrite <- (Htot f0), map_upd. cbn [t_todo].
+      destruct (contribs_split f0 i ((f, c) :: rest) (map t_todo ths)) as (R & HR & Hx).
+      { rewrite nth_error_map, Hi. cbn. rewrite Htodo. reflexivity. }
+      rewrite Hx, HR. cbn [contrib]. destruct (str_eqb_spec f0 f) as [->|Hne].
+      * rewrite lookup_set_same, !merge_assoc. reflexivity.
+      * rewrite lookup_set_other by exact Hne. reflexivity.
+    + exists i. split.
+      * intros j tj Hj Hji. rewrite nth_error_upd_other in Hj by congruence. eauto.
+      * intros th Hth. rewrite nth_error_upd_same in Hth by exact Hlen. inversion Hth; subst th. exact I.
+  - (* load *)
+    split.
+    + intros f0. rewrite <- (Htot f0), map_upd. cbn [t_todo]. rewrite <- Htodo, upd_same; [reflexivity|].
+      rewrite nth_error_map, Hi. reflexivity.
+    + exists i. split.
+      * intros j tj Hj Hji. rewrite nth_error_upd_other in Hj by congruence. eauto.
+      * intros th Hth. rewrite nth_error_upd_same in Hth by exact Hlen. inversion Hth; subst th.
+        unfold holder_ok. cbn [t_reg t_started t_todo]. split; [reflexivity|]. exists f, c, rest. split; reflexivity.
+Qed.
+
+Lemma crun_inv total sched : forall m ths m' ths',
+  cinv total m ths -> crun Shared sched m ths = Some (m', ths') -> cinv total m' ths'.
+Proof.
+  induction sched as [|i sched IH]; intros m ths m' ths' Hinv; cbn [crun].
+  - intros H; inversion H; subst; exact Hinv.
+  - destruct (cstep Shared i m ths) as [[m1 ths1]|] eqn:Hs; [|discriminate]. apply IH. eapply cstep_inv; eauto.
+Qed.
+
+Lemma contribs_all_done f ths : all_done ths = true -> contribs f (map t_todo ths) = [].
+Proof.
+  induction ths as [|t ths IH]; cbn [all_done forallb map contribs]; [reflexivity|]. intros H.
+  apply andb_prop in H. destruct H as [Ht H]. destruct (t_todo t); [|discriminate]. cbn [contrib]. rewrite IH by exact H. reflexivity.
+Qed.
+
+(* Runs that finish at the same time, on whatever copies, under the one lock: EVERY schedule of their loads
+   and stores that the lock admits and that lets all of them finish leaves the monoid fold of the runs in
+   the map - the result of merging them one after the other, in any order. *)
+Theorem one_lock_serialises jobs sched m0 m' ths' :
+  crun Shared sched m0 (map (fun j => fresh_thread (fst j) (snd j)) jobs) = Some (m', ths') ->
+  all_done ths' = true ->
+  forall f, lookup f m' = merge (lookup f m0) (contribs f (map snd jobs)).
+Proof.
+  intros Hr Hdone f.
+  pose (total := fun f => merge (lookup f m0) (contribs f (map snd jobs))).
+  assert (H0 : cinv total m0 (map (fun j => fresh_thread (fst j) (snd j)) jobs)).
+  { split.
+    - intros f0. unfold total. rewrite map_map. cbn [fresh_thread t_todo]. reflexivity.
+    - exists 0. split.
+      + intros j tj Hj _. rewrite nth_error_map in Hj. destruct (nth_error jobs j); inversion Hj. split; reflexivity.
+      + intros th Hth. rewrite nth_error_map in Hth. destruct (nth_error jobs 0); inversion Hth. exact I. }
+  destruct (crun_inv total sched _ _ _ _ H0 Hr) as [Htot _].
+  specialize (Htot f). rewrite (contribs_all_done f ths' Hdone), merge_nil_r in Htot. exact Htot.
+Qed.
+
+(* the lock the source takes IS one lock for all copies (lock_is_shared), so: *)
+Corollary concurrent_completion_is_fold jobs sched m0 m' ths' :
+  crun lock_scope sched m0 (map (fun j => fresh_thread (fst j) (snd j)) jobs) = Some (m', ths') ->
+  all_done ths' = true ->
+  forall f, lookup f m' = merge (lookup f m0) (contribs f (map snd jobs)).
+Proof. rewrite lock_is_shared. apply one_lock_serialises. Qed.
+
+(* A lock per copy (a mutex stored by value in the copied struct) or none does not do: two runs on two copies,
+   each loads before the other stores, and the first store is lost. *)
+Lemma lock_per_copy_loses_lines :
+  let jobs := [(0, [(s "a.go", [3; 2]%N)]); (1, [(s "a.go", [2; 3]%N)])] in
+  let ths := map (fun j => fresh_thread (fst j) (snd j)) jobs in
+  option_map (fun r => (lookup (s "a.go") (fst r), all_done (snd r))) (crun PerCopy [0; 1; 0; 1] [] ths) = Some ([2; 3]%N, true)
+  /\ crun Shared [0; 1; 0; 1] [] ths = None
+  /\ option_map (fun r => lookup (s "a.go") (fst r)) (crun Shared [0; 0; 1; 1] [] ths) = Some [3; 3]%N
+  /\ option_map (fun r => lookup (s "a.go") (fst r)) (crun PerCopy [0; 0; 1; 1] [] ths) = Some [3; 3]%N.
 Proof. cbv zeta. repeat split; vm_compute; reflexivity. Qed.
 
 (* ---- 3. flaky retries ---- *)
-Lemma fold_agg_obj_files cs : forall acc,
-  snd (fold_left agg_obj cs acc) = fold_left aggregate (map snd cs) (snd acc).
-Proof. induction cs as [|c cs IH]; intros acc; cbn [fold_left map]; [reflexivity|]. rewrite IH. reflexivity. Qed.
-
 (* the coverage doFlakeRun returns for the target is the merge of all attempts that ran *)
 Theorem flake_run_files n atts f :
   lookup f (snd (flake_run flake_combine n atts)) = contribs f (map snd (executed n atts)).
